@@ -225,17 +225,16 @@ Theorem c08_best_case_state_ice : forall (sv : @service QN) ftu fdu (r : pmr QN)
     = Ok [l1; t; d]
     /\ l1 == l0 + spec_best_case sv r hav_m * k_energy (energy_rate_energy_unit (pm_eru r)) fl.
 Proof. exact best_case_state_ice. Qed.
-(* BEV / PHEV: the code records the best-case energy labelled with the battery unit and updates the
-   charge with it unconverted: this IS ideal rate * distance exactly when the rate's energy unit is
-   the battery unit (k_energy bu bu == 1); stated as it is *)
+(* BEV / PHEV (after fix 0840f02): the recorded best-case energy is ideal rate * distance converted from the
+   rate's energy unit into the feature's unit, and the charge step uses it converted into the battery unit *)
 Theorem c08_best_case_state_bev : forall (sv : @service QN) ftu fdu (r : pmr QN) (cap st : Q) bu fe (s_init hav_m e0 s t d : Q),
   0 < cap ->
   exists e1 s1 : Q,
     best_case_energy_state QN (BEV r cap st bu) (convert_distance QN Meters (sv_du sv) hav_m) (sv_du sv)
                            [e0; s; t; d] (sm_bev ftu fdu s_init fe)
     = Ok [e1; s1; t; d]
-    /\ e1 == e0 + spec_best_case sv r hav_m * k_energy bu fe
-    /\ s1 == spec_soc s (spec_best_case sv r hav_m) cap.
+    /\ e1 == e0 + spec_best_case sv r hav_m * k_energy (energy_rate_energy_unit (pm_eru r)) fe
+    /\ s1 == spec_soc s (spec_best_case sv r hav_m * k_energy (energy_rate_energy_unit (pm_eru r)) bu) cap.
 Proof. exact best_case_state_bev. Qed.
 Theorem c08_best_case_state_phev : forall (sv : @service QN) ftu fdu (cs cd : pmr QN) (cap st : Q) bu fe fl
                                           (s_init hav_m e0 s l0 t d : Q), 0 < cap ->
@@ -243,8 +242,8 @@ Theorem c08_best_case_state_phev : forall (sv : @service QN) ftu fdu (cs cd : pm
     best_case_energy_state QN (PHEV cs cd cap st bu) (convert_distance QN Meters (sv_du sv) hav_m) (sv_du sv)
                            [e0; s; l0; t; d] (sm_phev ftu fdu s_init fe fl)
     = Ok [e1; s1; l0; t; d]
-    /\ e1 == e0 + spec_best_case sv cd hav_m * k_energy bu fe
-    /\ s1 == spec_soc s (spec_best_case sv cd hav_m) cap.
+    /\ e1 == e0 + spec_best_case sv cd hav_m * k_energy (energy_rate_energy_unit (pm_eru cd)) fe
+    /\ s1 == spec_soc s (spec_best_case sv cd hav_m * k_energy (energy_rate_energy_unit (pm_eru cd)) bu) cap.
 Proof. exact best_case_state_phev. Qed.
 
 (* ------------------------------------------------------------------ rejected edges *)
